@@ -317,11 +317,43 @@ func (c *compImpl) answer(line string) (string, bool) {
 		return "ok " + vh.Hex(p.Data), true
 	case f[0] == "unvarint" && len(f) == 2:
 		b := unhex(f[1])
-		v, n := binary.Varint(b)
-		if n <= 0 {
+		u := packer.NewBytesUnpacker(b)
+		v, err := u.GetVarint()
+		if err != nil {
 			return "err", true
 		}
-		return fmt.Sprintf("ok %d %d", v, len(b)-n), true
+		if v2, n := binary.Varint(b); n <= 0 || v2 != v || len(b)-n != u.Len() {
+			return fmt.Sprintf("packer-differs-from-encoding/binary %d/%d", v, v2), true
+		}
+		return fmt.Sprintf("ok %d %d", v, u.Len()), true
+	case (f[0] == "packer.u32" || f[0] == "packer.u64" || f[0] == "packer.str") && len(f) == 2:
+		p := packer.NewBytesPacker(nil)
+		switch f[0] {
+		case "packer.u32":
+			n, _ := strconv.ParseUint(f[1], 10, 32)
+			p.PutUint32(uint32(n))
+		case "packer.u64":
+			n, _ := strconv.ParseUint(f[1], 10, 64)
+			p.PutUint64(n)
+		default:
+			b, _ := hex.DecodeString(strings.TrimPrefix(f[1], "x"))
+			p.PutStringWithSize(string(b))
+		}
+		return "ok " + vh.Hex(p.Data), true
+	case (f[0] == "packer.getu32" || f[0] == "packer.getbinary") && len(f) == 2:
+		res := "panic"
+		func() {
+			defer func() { recover() }()
+			u := packer.NewBytesUnpacker(unhex(f[1]))
+			if f[0] == "packer.getu32" {
+				v := u.GetUint32()
+				res = fmt.Sprintf("ok %d %d", v, u.Len())
+			} else {
+				v := u.GetBinary()
+				res = fmt.Sprintf("ok x%s %d", hex.EncodeToString(v), u.Len())
+			}
+		}()
+		return res, true
 	case f[0] == "chunks.pack" && len(f) == 3:
 		cs := parseChunks(f[1])
 		ch := lids.Chunks{Offsets: []uint32{0}, IsLastLID: f[2] == "1"}
@@ -421,7 +453,7 @@ func runCodecChannels(o vh.Opts, rng *vh.RNG, rep *vh.Report) {
 		ch.Add(line, impl, nt, tags...)
 	}
 	// varint: boundaries of every byte length, both signs, plus random
-	ch := vh.NewChannel("codec.varint", "binary.PutVarint / binary.Varint vs putVarint/getVarint: all 7-bit length boundaries of both signs, int64 extremes, random int64, random and truncated byte strings (malformed stream); non-trivial = more than one byte")
+	ch := vh.NewChannel("codec.varint", "packer.BytesPacker.PutVarint / packer.BytesUnpacker.GetVarint (cross-checked against encoding/binary) vs putVarint/getVarint: every byte length 1..10 with continuation-bit patterns and trailing bytes, all 7-bit length boundaries of both signs, int64 extremes, random int64, random and truncated byte strings (malformed stream); non-trivial = more than one byte")
 	var xs []int64
 	for k := 0; k < 64; k++ {
 		for _, d := range []int64{-1, 0, 1} {
@@ -443,6 +475,25 @@ func runCodecChannels(o vh.Opts, rng *vh.RNG, rep *vh.Report) {
 			add(ch, "unvarint "+vh.Hex(p.Data[:len(p.Data)-1]), true, "dec-truncated")
 		}
 	}
+	// every byte length 1..10 with continuation-bit patterns in every byte (canonical and padded encodings), followed by
+	// 0..4 more bytes so that in-place fast paths for short varints see enough input
+	for L := 1; L <= 10; L++ {
+		for _, x := range []byte{0x00, 0x01, 0x7f, 0x55, 0x2a, 0x40} {
+			for _, y := range []byte{0x00, 0x01, 0x7f, 0x40, 0x3f} {
+				for tail := 0; tail <= 4; tail += 2 {
+					b := make([]byte, 0, 16)
+					for k := 0; k < L-1; k++ {
+						b = append(b, 0x80|x)
+					}
+					b = append(b, y)
+					for k := 0; k < tail; k++ {
+						b = append(b, byte(0x80+k))
+					}
+					add(ch, "unvarint "+vh.Hex(b), L > 1, fmt.Sprintf("dec-pattern len=%d", L))
+				}
+			}
+		}
+	}
 	for i := 0; i < o.Pick(300, 5000); i++ {
 		b := make([]byte, rng.Range(1, 12))
 		for j := range b {
@@ -454,6 +505,30 @@ func runCodecChannels(o vh.Opts, rng *vh.RNG, rep *vh.Report) {
 		add(ch, "unvarint "+vh.Hex(b), true, "dec-random")
 	}
 	rep.AddChannel(ch, o.Driver)
+
+	pk := vh.NewChannel("codec.packer", "packer.BytesPacker PutUint32 / PutUint64 / PutStringWithSize and BytesUnpacker GetUint32 / GetBinary vs le32 / le64 / putStr / getU32 / getBinary: boundary values of every byte, random values, strings of 0..70 bytes, decoders also on buffers with trailing bytes; a short buffer panics in Go and is not generated; non-trivial = value above one byte")
+	for _, v := range []uint64{0, 1, 255, 256, 65535, 65536, 1<<24 - 1, 1 << 24, 1<<32 - 1} {
+		add(pk, fmt.Sprintf("packer.u32 %d", v), v > 255, "u32")
+		add(pk, fmt.Sprintf("packer.u64 %d", v<<uint(v%33)), v > 255, "u64")
+	}
+	add(pk, fmt.Sprintf("packer.u64 %d", ^uint64(0)), true, "u64")
+	for i := 0; i < o.Pick(100, 2000); i++ {
+		v := rng.U64() >> uint(rng.Intn(64))
+		add(pk, fmt.Sprintf("packer.u32 %d", uint32(v)), true, "u32")
+		add(pk, fmt.Sprintf("packer.u64 %d", v), true, "u64")
+		str := make([]byte, rng.Intn(71))
+		for j := range str {
+			str[j] = byte(rng.Intn(256))
+		}
+		add(pk, "packer.str x"+hex.EncodeToString(str), len(str) > 0, "str")
+		p := packer.NewBytesPacker(nil)
+		p.PutStringWithSize(string(str))
+		p.PutUint32(uint32(v))
+		p.PutBytes([]byte{1, 2, 3}[:rng.Intn(4)])
+		add(pk, "packer.getbinary "+vh.Hex(p.Data), true, "getbinary")
+		add(pk, "packer.getu32 "+vh.Hex(p.Data[4+len(str):]), true, "getu32")
+	}
+	rep.AddChannel(pk, o.Driver)
 
 	// chunks
 	ch = vh.NewChannel("codec.chunks", "lids.Chunks.Pack / Chunks.unpack vs packBytes/unpackBytes: exhaustive chunk shapes (up to 3 chunks of 0..2 LIDs over {0,1,2,MaxUint32-1,MaxUint32} x IsLastLID) plus random chunk lists and random byte strings; non-trivial = at least two chunks or a malformed stream")
